@@ -11,6 +11,7 @@ CONSTANTS
   InstRes = {"value", "void", "none"}
   TermKinds = {"ret", "br", "invoke", "callbr", "catchswitch"}
   Forms = {"short"}
+  NameStyles = {"alpha"}
   MaxSrc = 4
   EmitFile = "vectors.ndjson"
 INVARIANTS FnWalkIsLLVM FnIdempotent ModBuiltCorrect ModParsedTotal ModParsedCorrect ModIdempotent ModPrintedAgree
